@@ -38,7 +38,8 @@
 (*   (_window_adjust wakes one waiter) | "set_closed_no_notify" (_set_closed wakes   *)
 (*   nobody: transport loss leaves parked writers asleep) | "wait_full_message"      *)
 (*   (the sender waits until the window covers the whole next message) |             *)
-(*   "open_limit_shadowed" (the accepting side ignores the opener's max packet size)  *)
+(*   "open_limit_shadowed" (the accepting side ignores the opener's max packet size) | *)
+(*   "wake_restarts_timer" (every wake-up of a timed wait restarts the full timeout)  *)
 EXTENDS Integers, Sequences, FiniteSets, TLC
 
 CONSTANTS UsersA, UsersB,   \* user threads of each side (strings)
@@ -97,6 +98,8 @@ VARIABLES
   comb,
   \* ---- threads waiting on out_buffer_cv that have been notified and not yet run again
   woken,
+  \* ---- timed waiters whose timeout budget is used up (and "late:<t>": t started a wait although it was)
+  spent,
   \* ---- user threads
   pc, op, left, pend, held, calls, ctx, last, spins,
   \* ---- transport thread per side, wires
@@ -110,7 +113,7 @@ tr   == <<tpc, tpend>>
 eobs == <<sent, granted, adjSent, nEof, nClose, afterCtl, bigMsg, lateEmit>>
 robs == <<consumed, leaked, closeSeen>>
 par  == <<win, thresh, maxpkt, peermax>>
-hb   == <<inflight, ctlq, comb, woken>>
+hb   == <<inflight, ctlq, comb, woken, spent>>
 vars == <<par, chan, hb, thr, tr, wire, eobs, robs>>
 
 (* both CLOSEs exchanged, seen from X: its own CLOSE is on the wire and the peer's was processed *)
@@ -151,7 +154,7 @@ InitRest ==
   /\ eofSent = [X \in Sides |-> FALSE] /\ eofRecv = [X \in Sides |-> FALSE]
   /\ closed = [X \in Sides |-> FALSE] /\ pclosed = [X \in Sides |-> FALSE] /\ linked = [X \in Sides |-> TRUE]
   /\ alive = [X \in Sides |-> TRUE] /\ sofar = [X \in Sides |-> 0]
-  /\ inflight = [X \in Sides |-> 0] /\ ctlq = [X \in Sides |-> <<>>] /\ comb = [X \in Sides |-> FALSE] /\ woken = {}
+  /\ inflight = [X \in Sides |-> 0] /\ ctlq = [X \in Sides |-> <<>>] /\ comb = [X \in Sides |-> FALSE] /\ woken = {} /\ spent = {}
   /\ buf = [X \in Sides |-> [out |-> 0, err |-> 0]]
   /\ pc = [t \in Threads |-> "idle"] /\ op = [t \in Threads |-> "none"] /\ left = [t \in Threads |-> 0]
   /\ pend = [t \in Threads |-> <<>>] /\ held = [t \in Threads |-> 0] /\ calls = [t \in Threads |-> 0]
@@ -165,7 +168,7 @@ InitRest ==
 Init == InitPar /\ InitRest
 
 (* ------------------------------------------------------------------ user threads *)
-EntryPc(o) == IF o = "combine" THEN "comb_lock" ELSE IF o \in SendOps THEN "send_lock" ELSE IF o \in RecvOps THEN "recv_read"
+EntryPc(o) == IF o = "zero_adjust" THEN "zadj_lock" ELSE IF o = "combine" THEN "comb_lock" ELSE IF o \in SendOps THEN "send_lock" ELSE IF o \in RecvOps THEN "recv_read"
               ELSE IF o = "close" THEN "close_lock" ELSE IF o = "shutdown_rw" THEN "shut_read" ELSE "shut_lock"
 
 Start(t, o, c) ==
@@ -189,7 +192,7 @@ DataMsg(t, k) == IF op[t] \in ErrOps THEN Msg("EXT", k, ctx[t].code) ELSE Msg("D
 
 \* exits of _send on which no message was built: nothing to undo - unless Mut = "done_always" runs _send_done there too
 ExitHB(t) == LET X == Side(t) IN
-             /\ woken' = woken \ {t}
+             /\ woken' = woken \ {t} /\ spent' = spent \ {t}
              /\ IF Mut = "done_always" /\ HoldBack /\ ~FixRace
                THEN /\ inflight' = [inflight EXCEPT ![X] = @ - 1] /\ comb' = comb
                     /\ IF inflight[X] = 1 /\ ctlq[X] # <<>>
@@ -212,7 +215,7 @@ SendReserve(t) ==
   /\ IF FixRace
        THEN Emit(X, <<DataMsg(t, k)>>, ctx[t].rel) /\ pend' = pend /\ pc' = [pc EXCEPT ![t] = "send_done"]
        ELSE NoEmit /\ pend' = [pend EXCEPT ![t] = <<DataMsg(t, k)>>] /\ pc' = [pc EXCEPT ![t] = "send_emit"]
-  /\ inflight' = [inflight EXCEPT ![X] = IF HoldBack /\ ~FixRace THEN @ + 1 ELSE @] /\ ctlq' = ctlq /\ comb' = comb /\ woken' = woken \ {t}
+  /\ inflight' = [inflight EXCEPT ![X] = IF HoldBack /\ ~FixRace THEN @ + 1 ELSE @] /\ ctlq' = ctlq /\ comb' = comb /\ woken' = woken \ {t} /\ spent' = spent \ {t}
   /\ spins' = [spins EXCEPT ![t] = IF k = 0 THEN Min(@ + 1, SpinCap) ELSE @]      \* a chunk of 0 bytes: iteration without progress
   /\ UNCHANGED <<eofSent, eofRecv, closed, pclosed, linked, alive, sofar, buf, tmo>>
   /\ UNCHANGED <<op, held, calls, ctx, last, tr, robs>>
@@ -232,7 +235,7 @@ SendEntry(t) ==
      ELSE IF Insufficient(t)
        THEN IF tmo[X] = "nonblock" THEN SendRaise(t)              \* socket.timeout
             ELSE /\ pc' = [pc EXCEPT ![t] = "send_wait"]          \* out_buffer_cv.wait releases the lock
-                 /\ woken' = woken \ {t} /\ UNCHANGED <<inflight, ctlq, comb>>
+                 /\ woken' = woken \ {t} /\ spent' = spent \ {t} /\ UNCHANGED <<inflight, ctlq, comb>>
                  /\ UNCHANGED <<op, left, pend, held, calls, ctx, last, spins, chan, tr, robs>> /\ NoEmit
      ELSE SendReserve(t)
 
@@ -249,13 +252,31 @@ ClosedNotifies    == Mut # "set_closed_no_notify"
 \* window there -> it leaves the loop and RE-CHECKS closed / eof_sent before allocating (channel.py: "we have some window
 \* to squeeze into" / if self.closed or self.eof_sent: return 0).  Mut = "no_exit_recheck" drops that re-check.
 ExitRecheck(X) == Mut # "no_exit_recheck" /\ (closed[X] \/ eofSent[X])
+\* the time budget of a timed wait.  TimePasses(t): the channel timeout has elapsed since t stalled.  The pinned loop carries
+\* the remaining time from one wait to the next, so a woken sender whose budget is spent raises;
+\* Mut = "wake_restarts_timer": every wake-up restarts the full timeout (`if not cv.wait(timeout): raise`).
+LateTag(t) == "late:" \o t
+TimeDimension == "zero_adjust" \in OpsA \cup OpsB
+TimePasses(t) ==
+  /\ TimeDimension /\ pc[t] = "send_wait" /\ tmo[Side(t)] = "timed" /\ t \notin spent
+  /\ spent' = spent \cup {t} /\ UNCHANGED <<inflight, ctlq, comb, woken>>
+  /\ UNCHANGED <<chan, thr, tr, robs>> /\ NoEmit
+\* a peer that sends a WINDOW_ADJUST of 0 bytes (legal, futile): _window_adjust notifies every waiter of the other side
+ZeroAdjust(t) ==
+  /\ pc[t] = "zadj_lock"
+  /\ woken' = NotifyAll(Peer(Side(t))) /\ UNCHANGED <<inflight, ctlq, comb, spent>>
+  /\ Finish(t, "returned", 0)
+  /\ UNCHANGED <<op, left, pend, held, calls, ctx, spins, chan, tr, robs>> /\ NoEmit
 SendWake(t) ==
   LET X == Side(t) IN
   /\ pc[t] = "send_wait" /\ t \in woken
-  /\ IF Insufficient(t)
+  /\ IF t \in spent /\ Mut # "wake_restarts_timer"       \* timeout -= elapsed; if timeout <= 0.0: raise socket.timeout()
+       THEN SendRaise(t)
+     ELSE IF Insufficient(t)
        THEN IF (closed[X] \/ eofSent[X]) /\ Mut # "wait_window_only"
               THEN SendReturns0(t)
               ELSE /\ woken' = woken \ {t} /\ UNCHANGED <<inflight, ctlq, comb>>          \* wait again
+                   /\ spent' = IF t \in spent THEN (spent \ {t}) \cup {LateTag(t)} ELSE spent   \* (only with wake_restarts_timer)
                    /\ UNCHANGED <<pc, op, left, pend, held, calls, ctx, last, spins, chan, tr, robs>> /\ NoEmit
        ELSE IF ExitRecheck(X) THEN SendReturns0(t) ELSE SendReserve(t)
 
@@ -272,7 +293,7 @@ SendEmit(t) ==          \* after the lock was released: transport._send_user_mes
 SendFin(t) ==           \* HoldBack: _send_done, locked: one hand-over less; the last one takes the queued EOF/CLOSE along
   LET X == Side(t) IN
   /\ pc[t] = "send_fin"
-  /\ inflight' = [inflight EXCEPT ![X] = @ - 1] /\ comb' = comb /\ woken' = woken
+  /\ inflight' = [inflight EXCEPT ![X] = @ - 1] /\ comb' = comb /\ woken' = woken /\ spent' = spent
   /\ IF inflight[X] > 1 \/ ctlq[X] = <<>> \/ Mut = "no_flush"
        THEN ctlq' = ctlq /\ pend' = pend /\ pc' = [pc EXCEPT ![t] = "send_done"]
        ELSE ctlq' = [ctlq EXCEPT ![X] = <<>>] /\ pend' = [pend EXCEPT ![t] = ctlq[X]] /\ pc' = [pc EXCEPT ![t] = "flush_emit"]
@@ -352,7 +373,7 @@ RecvEmit(t) ==
 CombineLocked(t) ==
   LET X == Side(t) IN
   /\ pc[t] = "comb_lock"
-  /\ comb' = [comb EXCEPT ![X] = TRUE] /\ UNCHANGED <<inflight, ctlq, woken>>
+  /\ comb' = [comb EXCEPT ![X] = TRUE] /\ UNCHANGED <<inflight, ctlq, woken, spent>>
   /\ buf' = IF comb[X] THEN buf ELSE [buf EXCEPT ![X] = [out |-> buf[X].out + buf[X].err, err |-> 0]]
   /\ sofar' = [sofar EXCEPT ![X] = IF Mut = "combine_credits" /\ ~comb[X] THEN @ + buf[X].err ELSE @]
   /\ Finish(t, "returned", 0)
@@ -374,6 +395,7 @@ CloseLocked(t) ==
             /\ closed' = [closed EXCEPT ![X] = TRUE] /\ pclosed' = [pclosed EXCEPT ![X] = TRUE]
             /\ UNCHANGED <<outwin, eofRecv, linked, alive, sofar, buf, tmo, inflight, comb>>
             /\ woken' = IF EofNotifies(X) \/ ClosedNotifies THEN NotifyAll(X) ELSE woken
+            /\ spent' = spent
             /\ IF Held(X)                     \* _send_eof / _close_internal queue behind the data still on its way
                  THEN ctlq' = [ctlq EXCEPT ![X] = @ \o ms] /\ NoEmit /\ Finish(t, "returned", 0) /\ pend' = pend
                ELSE /\ ctlq' = ctlq
@@ -396,6 +418,7 @@ ShutLocked(t) ==        \* _send_eof under the lock
   /\ eofSent' = [eofSent EXCEPT ![X] = TRUE]
   /\ UNCHANGED <<outwin, eofRecv, closed, pclosed, linked, alive, sofar, buf, tmo, inflight, comb>>
   /\ woken' = IF EofNotifies(X) THEN NotifyAll(X) ELSE woken
+  /\ spent' = spent
   /\ ctlq' = [ctlq EXCEPT ![X] = IF Held(X) THEN @ \o ms ELSE @]
   /\ IF ms = <<>> \/ Held(X) THEN Finish(t, "returned", 0) /\ pend' = pend /\ NoEmit
      ELSE IF FixRace THEN Emit(X, ms, ctx[t].rel) /\ Finish(t, "returned", 0) /\ pend' = pend
@@ -451,7 +474,7 @@ Deliver(X) ==
             /\ IF Mut = "adjust_notify_one" /\ Waiters(X) # {}
                  THEN \E u \in Waiters(X) : woken' = woken \cup {u}
                  ELSE woken' = NotifyAll(X)
-            /\ UNCHANGED <<eofSent, eofRecv, closed, pclosed, linked, alive, sofar, buf, tmo, inflight, ctlq, comb, thr, tr, eobs, robs>>
+            /\ UNCHANGED <<eofSent, eofRecv, closed, pclosed, linked, alive, sofar, buf, tmo, inflight, ctlq, comb, spent, thr, tr, eobs, robs>>
           [] m.t = "EOF" ->                          \* _handle_eof
             /\ wire' = [wire EXCEPT ![Y] = Tail(@)]
             /\ IF eofRecv[X] THEN UNCHANGED <<eofRecv, pclosed>>
@@ -465,6 +488,7 @@ Deliver(X) ==
             /\ closeSeen' = [closeSeen EXCEPT ![X] = TRUE]
             /\ UNCHANGED <<outwin, eofRecv, alive, sofar, buf, tmo, thr, consumed, leaked, inflight, comb>>
             /\ woken' = IF ~closed[X] /\ (EofNotifies(X) \/ ClosedNotifies) THEN NotifyAll(X) ELSE woken
+            /\ spent' = spent
             /\ ctlq' = [ctlq EXCEPT ![X] = IF Held(X) THEN @ \o ms ELSE @]
             /\ IF FixRace \/ ms = <<>> \/ Held(X)
                  THEN /\ IF alive[X] /\ ~Held(X)
@@ -492,13 +516,13 @@ Lost(X) ==              \* Transport.run ends: active = False; every channel get
   /\ linked' = [linked EXCEPT ![X] = FALSE]
   /\ UNCHANGED <<outwin, eofSent, eofRecv, sofar, buf, tmo, thr, tr, robs>> /\ NoEmit
   /\ woken' = IF ~closed[X] /\ ClosedNotifies THEN NotifyAll(X) ELSE woken       \* _unlink: if self.closed: return; _set_closed()
-  /\ UNCHANGED <<inflight, ctlq, comb>>
+  /\ UNCHANGED <<inflight, ctlq, comb, spent>>
 
 (* ------------------------------------------------------------------ next-state relation *)
 Step(t) == SendEntry(t) \/ SendWake(t) \/ SendEmit(t) \/ SendFin(t) \/ FlushEmit(t) \/ SendDone(t)
            \/ (\E n \in ReadSizes : RecvRead(t, n)) \/ RecvEmpty(t) \/ RecvAck(t) \/ RecvEmit(t)
-           \/ CombineLocked(t) \/ CloseLocked(t) \/ ShutRead(t) \/ ShutLocked(t) \/ CtlEmit(t)
-Timer(t) == SendTimer(t) \/ RecvTimer(t)
+           \/ ZeroAdjust(t) \/ CombineLocked(t) \/ CloseLocked(t) \/ ShutRead(t) \/ ShutLocked(t) \/ CtlEmit(t)
+Timer(t) == SendTimer(t) \/ RecvTimer(t) \/ TimePasses(t)
 StartAny(t) == \E o \in OpsOf(t) : \E c \in (IF o \in ErrOps THEN Codes ELSE {1}) : Start(t, o, c)
 
 Next == /\ \/ \E t \in Threads : StartAny(t) \/ Step(t) \/ Timer(t)
@@ -564,6 +588,8 @@ ReleasedInv    == \A X \in Sides : Released(X) => ~linked[X]
 NoSendAfterRelease == /\ \A X \in Sides : ~lateEmit[X]
                       /\ \A t \in Threads : (last[t].rel /\ last[t].op \in SendOps) => last[t].out = "raised"
 (* C25 *)
+\* "raise if it times out": a timed sender never starts another wait once its timeout has elapsed since it stalled
+TimedSendEndsInTime == \A t \in Threads : LateTag(t) \notin spent
 \* a sender parked in the window wait is never left there once the window reopened or the channel was closed.
 \* NoHangInWindowWait is an AT-REST predicate (Channel_Trace evaluates it when a schedule of the real code has ended);
 \* HangFree is its model form: no state in which every call in progress is stuck for good while one of them is such a sender.
